@@ -20,9 +20,9 @@ theorem gl_limC_chunks (limit v : Nat) :
     (limC limit).chunks v = seqChunks (List.replicate limit u8C) (leBytes limit v) := rfl
 
 theorem gl_write_loop (st : WStream S E) (l : List Nat) (acc v : Nat) :
-    write_u64_limited_loop1 st l acc v
+    write_u64_limited_loop1 st l v acc
       = wbind (runChunks st (seqChunks (List.replicate l.length u8C) (leBytes l.length v)))
-          fun n => wpure (acc + n, v / 256 ^ l.length) := by
+          fun n => wpure (v / 256 ^ l.length, acc + n) := by
   induction l generalizing acc v with
   | nil => simp [write_u64_limited_loop1, seqChunks, runChunks, wbind_wpure, leBytes]
   | cons x xs ih =>
